@@ -182,14 +182,17 @@ CLAIMED["C06"] = dict(
 
 CLAIMED["C19"] = dict(
     text="PARTIAL. The Lean run model is a function of (csvpath, records, configuration) by construction; the one explicit cross-run "
-         "state, the header cache, is proved to return what was stored for every header list with comma-free cells other than [''] "
-         "(c19_cache_roundtrip; cleaned headers never contain a comma). Tie: suite `jobs` runs sequences of 2-6 generated (csvpath, file) "
-         "jobs in one process and requires each job to give the lines, variables, printouts, errors, headers and verdict it gives alone "
-         "in a fresh subprocess — in sequence, repeated, and through CsvPaths.csvpath() with a cold and a warm cache, with header cells "
-         "containing spaces, quotes and delimiter-like characters.",
+         "state, the header cache, is proved to return exactly the header list that was stored, for every header list (empty, a single "
+         "empty name, names with commas, quote characters, line feeds; no carriage return, which a text-mode reader never delivers) on "
+         "the model of Python's csv module (c19_cache_roundtrip_csv: writer with the default CRLF terminator, text-mode read, reader "
+         "state machine); the comma split/join round trip of the code before the repair is kept (c19_cache_roundtrip). Tie: suite `jobs` "
+         "runs sequences of 2-6 generated (csvpath, file) jobs in one process and requires each job to give the lines, variables, "
+         "printouts, errors, headers and verdict it gives alone in a fresh subprocess — in sequence, repeated, and through "
+         "CsvPaths.csvpath() with a cold and a warm cache, with header cells containing spaces, quotes and delimiter-like characters; "
+         "and drives the real FileCacher/Cache on generated header lists against the model (cache file text and list read back).",
     note="Process-global Python state (module registries, warnings filters, logging handlers) has no counterpart in a pure model; "
-         "history-independence of the implementation is tested, not proved. The csv module's round trip is C06's theorem c06_csv_roundtrip.",
-    technique="Lean 4 proof (comma split/join round trip) + fresh-process differential testing",
+         "history-independence of the implementation is tested, not proved.",
+    technique="Lean 4 proof (csv writer/reader round trip of the header cache) + fresh-process differential testing",
     design="6/C19",
 )
 
